@@ -252,3 +252,14 @@ Theorem C02_source_effects2 :
   (forall q e k f cc now ql, peq (src_handle_stale_while_revalidate q e k f cc now ql) (handle_stale_while_revalidate q e k f cc now ql)).
 Proof. repeat split; [exact tie_serve_from_cache|exact tie_handle_stale_while_revalidate]. Qed.
 Print Assumptions C02_source_effects2.
+
+(* the freshness computation itself — CalculateFreshness with its precedence of max-age / Expires / heuristics, the request's
+   max-age, min-fresh and max-stale, and the flags the hit decision reads; calculateCurrentAge with its saturating sums and
+   Go's wrapping multiplication; heuristicFreshness with Go's truncating division — is what /verif/translate derives from
+   internal/freshness.go on this run, for every stored entry, directive set and clock reading *)
+Theorem C02_source_freshness :
+  (forall e rq rs now, src_calculate_freshness e rq rs now = calculate_freshness e rq rs now) /\
+  (forall h date rt st now, src_current_age h date rt st now = (current_age h date rt st now, now)) /\
+  (forall h date, src_heuristic_freshness h date = heuristic_freshness h date).
+Proof. split; [exact tie_calculate_freshness|split; [exact tie_current_age|exact tie_heuristic_freshness]]. Qed.
+Print Assumptions C02_source_freshness.
